@@ -249,6 +249,9 @@ func (fi *FileInfo) locateObjects() error {
 	}
 	fi.PDFStart = pos
 	fi.HeaderVersion = m[1]
+	// startRegexp consumes the byte after the version number; un-read it, so
+	// that an end-of-line there can introduce the first marker.
+	s.pos--
 
 	section := &FileSection{}
 
@@ -537,11 +540,16 @@ func countLeadingSpaces(s string) int64 {
 	return n
 }
 
+// A marker must follow an end-of-line byte.  The pattern cannot use "^" for
+// the start of the data: the scanner matches against a sliding window, so "^"
+// would also match wherever a window happens to begin, in the middle of a
+// line.  Instead, locateObjects keeps the byte which follows the header
+// version in the window.
 var (
 	startRegexp = regexp.MustCompile(`%PDF-([12]\.[0-9])[^0-9]`)
 
 	whiteSpacePat = `[\000\011\014 ]+`
-	eolPat        = `(?:\r\n|\r|\n|^)`
+	eolPat        = `(?:\r\n|\r|\n)`
 	objectPat     = `([0-9]+)` + whiteSpacePat + `([0-9]+)` + whiteSpacePat + `obj`
 	markerPat     = eolPat + `(` + objectPat + `|xref|trailer|startxref|%%EOF)\b`
 	markerRegexp  = regexp.MustCompile(markerPat)
